@@ -55,7 +55,7 @@ inline uint64_t mix64(uint64_t h, uint64_t v) {
 
 // ---------------------------------------------------------------------------------------------
 enum AccessMode : int { AM_R = 0, AM_W = 1, AM_C = 2 };
-enum PointKind : int { PK_CREATE = 0, PK_YIELD = 1, PK_WAIT = 2 };
+enum PointKind : int { PK_CREATE = 0, PK_YIELD = 1, PK_WAIT = 2, PK_DEEP = 3 };   // PK_DEEP: function entry/exit inside instrumented library code
 
 enum PickMode : int { PICK_FIFO = 0, PICK_LIFO = 1, PICK_UNIFORM = 2, PICK_PRIO_HIGH = 3, PICK_PRIO_LOW = 4, PICK_NB };
 enum WorkerMode : int { WK_UNIFORM = 0, WK_ROUNDROBIN = 1, WK_LOWEST = 2, WK_FIXED = 3, WK_NOT_CREATOR = 4, WK_NB };
@@ -63,6 +63,7 @@ enum WorkerMode : int { WK_UNIFORM = 0, WK_ROUNDROBIN = 1, WK_LOWEST = 2, WK_FIX
 struct Policy {
     double pCreate = 0.0;      // probability of starting a task at a create point (repeated)
     double pYield = 0.0;       // same at a yield point
+    double pDeep = 0.0;        // same at a function boundary inside a kernel callback (translation units built with -finstrument-functions)
     int pick = PICK_FIFO;
     int workerMode = WK_UNIFORM;
     int fixedWorker = 1;       // index into the worker list for WK_FIXED
@@ -101,8 +102,8 @@ struct Group { int mode; std::vector<int> tasks; int done = 0; int inflight = 0;
 struct AddrState { std::vector<Group> groups; size_t firstIncomplete = 0; int nameId = -1; };
 
 struct Stats {
-    long points[3] = {0, 0, 0};
-    long startedAt[3] = {0, 0, 0};
+    long points[4] = {0, 0, 0, 0};
+    long startedAt[4] = {0, 0, 0, 0};
     long tasks = 0;
     long maxDepth = 0;
     long inversions = 0;           // tasks started while an earlier-created task was still pending
@@ -201,6 +202,15 @@ struct NoCount { int saved; NoCount() : saved(g_noCount) { g_noCount = saved + 1
 
 inline bool simActive() { return g_sim && g_sim->active; }
 inline void yieldPoint() { if (g_sim && g_sim->active) g_sim->point(PK_YIELD); }
+
+// true while an instrumented library routine runs inside a kernel callback of a simulated task and the run's policy asks for
+// preemption at function boundaries (set by Probe around the wrapped kernel's operators)
+extern bool g_deep;
+struct DeepScope {
+    bool saved;
+    DeepScope() : saved(g_deep) { g_deep = g_sim && g_sim->active && g_sim->policy.pDeep > 0; }
+    ~DeepScope() { g_deep = saved; }
+};
 
 }  // namespace tbfsim
 
